@@ -193,7 +193,8 @@ Get(t, k) == First(Flat(t), k)
 \* (also Extent and SpanCtxt) keeps the default false
 RECURSIVE UniqB(_)
 UniqB(t) ==
-    CASE t.op \in {"empty", "pair", "btree", "hash", "ctxt", "macro", "dedup"} -> TRUE
+    \* (the Current of a TraceparentCtxt - a ctxt leaf with `tp` - keeps the default)
+    CASE t.op \in {"empty", "pair", "btree", "hash", "ctxt", "macro", "dedup"} /\ "tp" \notin DOMAIN t -> TRUE
       [] t.op \in {"ref", "asmap", "erased"} -> UniqB(t.t)
       [] OTHER -> FALSE
 
